@@ -1,0 +1,79 @@
+//go:build verif
+
+package ysgo
+
+// Hooks for the external verification harness (/verif). This file is only compiled with
+// `-tags verif`; it adds exported views of internal packages and changes no behaviour.
+
+import (
+	"fmt"
+
+	"github.com/antlr4-go/antlr/v4"
+
+	"github.com/remieven/ysgo/internal/container"
+	"github.com/remieven/ysgo/internal/parser"
+)
+
+// VerifQueue is the ring buffer used by the indentation-aware lexer, instantiated on int.
+type VerifQueue = container.Queue[int]
+
+// VerifStack is the stack used by the runner and the lexer, instantiated on int.
+type VerifStack = container.Stack[int]
+
+// VerifToken is a plain copy of an antlr token.
+type VerifToken struct {
+	Type    int
+	Channel int
+	Text    string
+	Start   int
+	Stop    int
+}
+
+func verifCopyToken(t antlr.Token) VerifToken {
+	return VerifToken{Type: t.GetTokenType(), Channel: t.GetChannel(), Text: t.GetText(), Start: t.GetStart(), Stop: t.GetStop()}
+}
+
+// VerifBaseTokens returns the tokens the generated lexer produces for input when the
+// indentation wrapper is bypassed, up to and including the first EOF (at most limit tokens).
+func VerifBaseTokens(input string, limit int) (tokens []VerifToken, panicked string) {
+	defer func() {
+		if r := recover(); r != nil {
+			panicked = fmt.Sprint(r)
+		}
+	}()
+	lexer := parser.NewYarnSpinnerLexer(antlr.NewInputStream(input))
+	lexer.RemoveErrorListeners()
+	for len(tokens) < limit {
+		token := lexer.BaseLexer.NextToken()
+		tokens = append(tokens, verifCopyToken(token))
+		if token.GetTokenType() == antlr.TokenEOF {
+			break
+		}
+	}
+	return tokens, ""
+}
+
+// VerifWrappedTokens returns the tokens handed to the parser (NextToken of the
+// indentation-aware lexer) up to and including the first EOF (at most limit tokens).
+// A nil token ends the list with Type -2.
+func VerifWrappedTokens(input string, limit int) (tokens []VerifToken, panicked string) {
+	defer func() {
+		if r := recover(); r != nil {
+			panicked = fmt.Sprint(r)
+		}
+	}()
+	lexer := parser.NewYarnSpinnerLexer(antlr.NewInputStream(input))
+	lexer.RemoveErrorListeners()
+	for len(tokens) < limit {
+		token := lexer.NextToken()
+		if token == nil {
+			tokens = append(tokens, VerifToken{Type: -2})
+			break
+		}
+		tokens = append(tokens, verifCopyToken(token))
+		if token.GetTokenType() == antlr.TokenEOF {
+			break
+		}
+	}
+	return tokens, ""
+}
